@@ -44,7 +44,7 @@ class H:
                  also=(), tier='quick', timeout=600, kind='proof', min_obligations=5,
                  expect=(), replay=None, solver=None, functions=None, trusted=(), bounds=None,
                  note='', object_bits=12, properties=None, no_canary=False, extra_cbmc=(),
-                 nondet_static_off=False):
+                 nondet_static_off=False, fallback=None):
         self.name = name
         self.props = list(props)
         self.also = list(also)
@@ -74,6 +74,7 @@ class H:
         self.properties = properties
         self.no_canary = no_canary
         self.extra_cbmc = list(extra_cbmc)
+        self.fallback = fallback  # (replay file, mode): public-API battery used when the contract cannot be attached
 
 
 def _limits():
